@@ -39,7 +39,50 @@ def projection(spec, ph):
     return sp
 
 
+def check_readd(case):
+    """a configured subtree is deleted and re-added WITHOUT configuration: it must behave as never configured."""
+    from ..sysmodel import make_comp
+    res = Res()
+    base = spec_from_forest(case["f"], case["pal"], 1, case["srs"])
+    d0 = resolve(base)
+    root = case["root"]
+    sub = [root]
+    for c in base["comps"]:
+        if any(p in sub for p in d0[c["n"]]["parents"]) and c["n"] not in sub:
+            sub.append(c["n"])
+    assign = {}
+    for c in base["comps"]:
+        if c["n"] in sub:
+            opts = pc_options(c, PH2, False)
+            if len(opts) > 1:
+                assign[c["n"]] = opts[1]
+    conf = with_phases(base, PH2, assign)
+    s = build(conf)
+    quiet_call(s.solve)
+    s.del_comp(root)
+    for c in base["comps"]:
+        if c["n"] in sub:
+            s.add_comp(c["p"][0], comp=make_comp(c))
+    res.stats["transitions"] += len(sub) + 2
+    expected = with_phases(base, PH2, {})
+    try:
+        df, _ = quiet_call(s.solve)
+    except Exception as e:
+        res.v(("C06.readd-solve-raises", type(e).__name__), str(e))
+        return res
+    obs = observe(df)
+    dd = resolve(expected)
+    for ph in PH2:
+        phys.check_phase(res, expected, obs, ph, 25.0, WANT, dd)
+    res.viol = [(("C06.readd",) + sig, det) for sig, det in res.viol]
+    res.nontrivial = 1 if assign else 0
+    res.classes.add("readd")
+    return res
+
+
 def check_case(case):
+    if case.get("fam") == "readd":
+        return check_readd(case)
     res = Res()
     phases = PH3 if case.get("ph3") else PH2
     base = spec_from_forest(case["f"], case["pal"], case.get("pol", 1), case["srs"])
@@ -114,6 +157,17 @@ def gen_cases(tier):
                 opts = [pc_options(c, phases, full) for c in base["comps"]]
                 for assign in itertools.product(*opts):
                     yield dict(f=f, pal=pal, srs=0.37, assign=list(assign), ph3=ph3)
+    yield from gen_readd(tier, pal)
+
+
+def gen_readd(tier, pal):
+    deep = Trees(*SIG_DEEP)
+    for n in ((2, 3) if tier == "quick" else (2, 3, 4)):
+        for f in deep.iter_forests(n):
+            base = spec_from_forest(f, pal, 1, 0.37)
+            for c in base["comps"][1:]:
+                if c["p"] == ["S"] and c["k"] not in LOADS:
+                    yield dict(fam="readd", f=f, pal=pal, srs=0.37, root=c["n"])
 
 
 def replay(doc):
@@ -131,6 +185,6 @@ def main(tier):
     return run.finish(
         rule="E1-phase: every tree (mid alphabet n<=2; deep alphabet n=3; thorough adds mid n=3, 3 phases, deep n=4) x the full product over components of "
              "{no configuration} + {every non-empty subset of phases} (two-ended subsets only for the larger trees); per phase: C01/C02/C04 row oracles with the phase "
-             "behaviour of the statement, solve(phase=p) cell-for-cell equal, unknown phase rejected, phase-free projection differential. "
+             "behaviour of the statement, solve(phase=p) cell-for-cell equal, unknown phase rejected, phase-free projection differential; plus: a phase-configured subtree deleted and re-added without configuration must behave as never configured. "
              "non-trivial = some component sleeps in some phase while >=2 components are configured.",
         assumptions=["one palette per run (VERIF_SEED)", "positive polarity", "Rectifier/RLoss/VLoss carry no phase configuration"])
